@@ -41,3 +41,38 @@ package f1
 //@   props C20
 //@   requires forall j int :: 0 <= j && j < len(scenarios) ==> scenarios[j] != nil
 //@   ensures result != nil
+//@
+//@ // ---- C08 (CLI half): whatever the command returned is what execute / ExecuteWithArgs return: an error of the run
+//@ // command is never replaced by nil on the way out (stopping the profiler, joining errors, wrapping).
+//@ ghost var G8cmdFailed bool
+//@ ghost var G8execFailed bool
+//@ func buildRootCmd
+//@   props C08
+//@   trusted construction of the cobra command tree (flag registration, sub-commands); the run sub-command's RunE is runCmdExecute$1, verified on its own
+//@   modifies nothing
+//@   ensures (result.1 == nil ==> result.0 != nil) && (result.1 != nil ==> result.0 == nil)
+//@
+//@ func newSignalContext
+//@   props C08
+//@   trusted spawns the signal-forwarding goroutine; returns a context
+//@   modifies nothing
+//@   ensures result != nil
+//@
+//@ func (*profiling).stop
+//@   props C08
+//@   trusted pprof plumbing (stops the CPU profile, writes the heap profile): no effect on modelled state
+//@   modifies nothing
+//@
+//@ func (*F1).execute
+//@   props C08
+//@   requires f != nil && f.profiling != nil && f.options != nil
+//@   ghost at entry : G8cmdFailed = false
+//@   ghost after call (*Command).ExecuteContext : G8cmdFailed = (ret0 != nil)
+//@   ensures [command-error-is-returned] G8cmdFailed ==> result != nil
+//@
+//@ func (*F1).ExecuteWithArgs
+//@   props C08
+//@   requires f != nil && f.profiling != nil && f.options != nil
+//@   ghost at entry : G8execFailed = false
+//@   ghost after call (*F1).execute : G8execFailed = (ret0 != nil)
+//@   ensures [error-iff-execute-failed] (G8execFailed ==> result != nil) && (!G8execFailed ==> result == nil)
